@@ -45,6 +45,7 @@ type DeclCfg struct {
 	PInline      int // % of nested struct fields that carry no group tag (their options belong to the enclosing group)
 	PCmdTwin     int // a sibling command is named like the previous one up to case / one trailing character
 	PNamedRest   int // a []string rest positional is declared with the named type StrList
+	PReqInverted int // % of the N-M ranges of a rest positional that have M < N
 	PReqViaAPI   int // the required counts of a positional are assigned through Command.Args() instead of a tag
 	PPosLongTag  int // a positional field also carries a long: tag
 	PPosSplit    int // the positionals are declared in two positional-args structs
@@ -216,6 +217,10 @@ func (n *namer) genCmdBody(c *Cmd) {
 						a.Req = fmt.Sprintf("%d-", lo) // no upper bound
 					default:
 						a.Req = fmt.Sprintf("%d-%d", lo, lo+r.Range(0, 2))
+						if cfg.PReqInverted > 0 && lo > 0 && r.Chance(cfg.PReqInverted, 100) {
+							// a range nobody can meet (maximum below minimum): every count is refused
+							a.Req = fmt.Sprintf("%d-%d", lo, r.Intn(lo))
+						}
 					}
 				}
 			} else if !pd.Required && r.Chance(cfg.PPosReq/2, 100) {
